@@ -122,6 +122,9 @@ func extractSession(out string) {
 	walkBlock(fd.Body)
 	l.strList("clientTokens", toks)
 	l.strList("closerTokens", closer)
+	// the refresh of the service list: one at a time, in the order of the directory's signals
+	l.strList("updateLoopFlow", flowTokens(mustFunc(f, file, "*Session", "updateLoop"), "s", []string{"removed", "added"}, []string{"updateServiceList"}))
+	l.strList("updateServiceListFlow", flowTokens(mustFunc(f, file, "*Session", "updateServiceList"), "s", []string{"serviceList"}, []string{"Services", "Terminate"}))
 	l.write(out, "Session.lean")
 }
 
